@@ -9,6 +9,12 @@ def run(tier):
     c = Check("C03", tier)
     exe = driver("asan")
     cfgs, beh = model_behaviours(c, tier, cfgsel=[1, 3, 5, 7, 8])
+    # free-value routing (multi-value argument / flag / positional) needs three uses: own run with MaxUses = 3
+    if tier == "thorough":
+        cfgs2, beh2 = model_behaviours(c, tier, cfgsel=[16], maxuses=3)
+    else:
+        cfgs2, beh2 = model_behaviours(c, tier, cfgsel=[16], maxuses=2)
+    beh += beh2
     script = os.path.join(c.wd, "replay.ndjson")
     n = behaviours_script(cfgs, beh, script, select=lambda b: b["valid"])
     c.notes.append("R: %d distinct spellings of valid lines replayed" % n)
@@ -19,6 +25,22 @@ def run(tier):
     blocks = []
     for _ in range(ncfg):
         cfg = g.cfg(nargs=g.r.randint(5, 12), constraints=True)
+        acts = []
+        for _ in range(nlines):
+            line = gen_valid(g, cfg)
+            if line is None:
+                continue
+            acts.append(eval_action(g.spell_line(cfg, line), tag={"k": "line", "line": line_json(line)}))
+        blocks.append((cfg, acts))
+    # T1b: which argument gets a free value: multi-value arguments, flags, valued arguments and a positional in every order
+    for _ in range(100 if tier == "quick" else 1500):
+        cfg = g.cfg(nargs=g.r.randint(3, 5), kinds=["flag", "int", "vecint", "vecstr", "listint"], constraints=False, allow_pos=False)
+        for a in cfg["args"]:
+            if arggen.is_cont(a["kind"]):
+                a["multi"] = True
+            a["mand"] = False
+        p = arggen.new_arg(g.r.choice(["str", "vecstr"])); p["pos"] = True; p["card"] = {"t": "none", "a": 0, "b": 0}
+        cfg["args"].append(p)
         acts = []
         for _ in range(nlines):
             line = gen_valid(g, cfg)
